@@ -17,7 +17,8 @@ RULE = ("dround [-n] SPEC over stdin batches of 60 values per generated spec. Sp
         "day-of-month replaced by the month's last day; co-class: nearest multiple of N units "
         "from the unit's origin at or beyond the input, strictly beyond with --next, finer fields "
         "zero); rounding the result again without --next returns it unchanged. Non-trivial: a "
-        "carry into a coarser unit, a clamped day, or an input already on the target")
+        "carry into a coarser unit, a clamped day, or an input already on the target"
+        " Also: every accepted spelling of the units (h H; m M and the prime; s S and the double prime), two and 17..40 targets in one invocation against the folded single-target oracle, T24:00:00 inputs for time targets, epoch seconds on both sides of 1970, and two inputs per spec through the argument route.")
 ASSUMPTIONS = ["targets the statement does not name (quarter, week, year as field values; business days) are not generated",
                "day targets 29..31 with --next on an input that already is the clamped last day are not generated",
                "time-only values wrap around midnight by design"]
